@@ -317,7 +317,8 @@ PROPS = {
         'required_theorems': ['C18_every_name_in_exactly_one_group',
                               'C18_names_stay_unique_and_keep_their_value',
                               'C18_filing_succeeds_on_distinct_present_names',
-                              'C18_filing_raises_on_missing_name', 'C18_mse_laws', 'C18_ratio_laws'],
+                              'C18_filing_raises_on_missing_name', 'C18_mse_laws', 'C18_ratio_laws',
+                              'C18_reported_value_reduces_the_per_input_values', 'C18_one_value_per_test_input'],
         'rule': ('generated models x shipped or random recipes x 1-3 test samples per signature x metric (mse / '
                  'median_diff_ratio): Quantizer.validate() and compare_model(model, model); every reported value '
                  'recomputed from two interpreter instances of the check (own dequantisation, float64 metric, mean over '
